@@ -241,7 +241,10 @@ def h_trace(state):
             raise KeyboardInterrupt
     else:
         _call("trace")
-    return {"pos": state.pos, "cid": state.cid}
+    # traced quantities of several inexact dtypes: rows never reached must read NaN in all of them
+    # (seed C15-3: only float64 arrays were pre-filled with NaN)
+    return {"pos": state.pos, "cid": state.cid, "pos32": state.pos.astype(np.float32),
+            "cplx": np.complex64(complex(state.pos[0], state.pos[1])), "half": np.float16(state.pos[0])}
 
 
 def _mark_classes():
@@ -330,6 +333,7 @@ def hmc_run(spec, k=None, record=False, n_process=1, target=None, memdir=None):
     res = {
         "error": None, "events": events, "fired": fired,
         "pos": [np.array(a) for a in out.traces["pos"]],
+        "aux": {k_: [np.array(a) for a in out.traces[k_]] for k_ in ("pos32", "cplx", "half") if k_ in out.traces},
         "stats": {k_: [np.array(a) for a in v] for k_, v in out.statistics.items()},
         "finals": [(np.array(s.pos), np.array(s.mom), int(s.dir)) for s in out.final_states],
     }
@@ -391,6 +395,13 @@ def hmc_prefix_check(base, res, n_chain, n_warm_rows=0):
                     a = v[c][r]
                     if not (a != a or a == -1 or a is np.False_ or a == False):  # noqa: E712
                         bad.append(f"chain {c} row {r}: statistic {k_} = {a} written although row is fill")
+            for k_, v in res.get("aux", {}).items():
+                a, b = v[c][r], base.get("aux", {}).get(k_, v)[c][r]
+                if tr_fill and not bool(np.all(np.isnan(a))):
+                    bad.append(f"chain {c} row {r}: traced quantity {k_} ({v[c].dtype}) reads {a!r} in a row that "
+                               "was never reached (fill value must be NaN)")
+                elif not tr_fill and not np.array_equal(a, b, equal_nan=True):
+                    bad.append(f"chain {c} row {r}: traced quantity {k_} differs from uninterrupted run")
             if not tr_fill and st_fill:
                 bad.append(f"chain {c} row {r}: trace present without statistics")
             if (not tr_fill or not st_fill) and seen_fill:
